@@ -118,7 +118,9 @@ def replay_g(v):
 
 
 REPS_QUICK = ["<a>", "<a n>", "<b>", "</a>", "</b>", "<a/>", "<B X/>", "k v", "k", "K w  x",
-              "# c", "", "%import p", "%define x y", "%bogus z", "<a", "(x", "</A >", "k $$v", "%include f"]
+              "# c", "", "%import p", "%define x y", "%bogus z", "<a", "(x", "</A >", "k $$v", "%include f",
+              # U+FEFF is not white space: in front of '#', '<' or '%' it makes the line a key line, on any line
+              "\ufeff# c", "\ufeff<a>"]
 REPS_MORE = ["<a n m>", "</a", "%import", "% import p", "<a/ >", "<a />", "k $v", "k $", "<a (n)>",
              "%Import p", "</>", "<>", "%import q"]
 
@@ -164,7 +166,8 @@ def run_g_levels(chk, quick, replay):
              "key_value", "directive", "section", "start_section", "end_section", "parse", "error", "replace",
              "nextline", "handle_define", "_define", "define_", "url", "lineno", "context", "stack", "file",
              "defined", "undef", "if", "end", "__init__", "__class__"]
-    dreps = ["%" + w + " a b" for w in words] + ["%" + w for w in words[:6]] + ["<a>", "</a>"]
+    dreps = (["%" + w + " a b" for w in words] + ["%" + w for w in words[:6]] + ["<a>", "</a>"]
+             + ["%" + w + sep + "a b" for w in words[:6] for sep in ("\t", "\u3000", "  \t")])
     r3, n3 = flow.run_g(chk, g_module(dreps), g_cfg(2, l16, l8, l5, 1), replay,
                         nontrivial=nontrivial_g, sample_every=97, timeout=900)
     # closers: '</type>' and nothing else closes a section - a closer is compared with the open section's type as a
@@ -235,8 +238,32 @@ def random_text(rng, maxlines=40, maxdepth=6):
     return lines
 
 
-def record_v(rng):
-    lines = random_text(rng)
+def repo_texts():
+    """Configuration texts that ship with the repository (test inputs, documentation examples), as they are and
+    with the lines the schema-less loader refuses (%define, %include, references) taken out."""
+    from ..core import REPO
+    out = []
+    for top in (os.path.join(REPO, "src", "ZConfig"), os.path.join(REPO, "docs")):
+        for dirpath, _, files in sorted(os.walk(top)):
+            for fn in sorted(files):
+                if not fn.endswith(".conf"):
+                    continue
+                try:
+                    with open(os.path.join(dirpath, fn), encoding="utf-8", newline="") as f:
+                        lines = f.read().split("\n")
+                except (OSError, UnicodeDecodeError):
+                    continue
+                if lines and lines[-1] == "":
+                    lines.pop()
+                out.append(lines)
+                plain = [l for l in lines if not l.strip().startswith(("%define", "%include")) and "$" not in l]
+                if plain != lines:
+                    out.append(plain)
+    return out
+
+
+def record_v(rng, lines=None):
+    lines = random_text(rng) if lines is None else lines
     text = text_of(lines, rng.randint(0, 1))
     got, top = observe_text(text)
     rec = {"txt": [enc_chars(l) for l in lines], "_text": text, "_lines": lines, "_got": got, "_top": top}
@@ -288,6 +315,14 @@ def run(chk):
     while done < total:
         k = min(batch, total - done)
         recs = [record_v(rng) for _ in range(k)]
+        if done == 0:
+            shipped = repo_texts()
+            recs += [record_v(rng, lines) for lines in shipped]
+            chk.note("v_repository_texts", len(shipped))
+            # physical lines far longer than any buffer: a line is a line however long it is
+            big = [["# " + "c" * 8200, "k v"], ["k " + "v" * 8200 + " tail  end"],
+                   ["<" + "t" * 8200 + " N>", "k v", "</" + "T" * 8200 + ">"]]
+            recs += [record_v(rng, lines) for lines in big]
         acc += sum(1 for r in recs if r["_got"]["r"] == "ok")
 
         def describe(i, rec, clause, verdict):
